@@ -12,7 +12,7 @@ from __future__ import annotations
 import itertools
 
 from .. import markermon as MM
-from ..monitor import CaseTimeout, bump, install, violation
+from ..monitor import STATE, CaseTimeout, bump, install, violation
 from ..workloads import markers as MW
 from ._marker_common import mentioned, run_trees
 
@@ -84,6 +84,12 @@ def setup(ctx):
                       {"marker": MM.mtext(self), "names": sorted(names), "result": MM.mtext(r), "group": kind + "-mention"})
             return
         cap = budget()
+        if STATE.nest == 0:
+            # the call the workload itself made: its environments are never crowded out by the (possibly
+            # dozens of) inner only()/exclude() calls on the children, which drew on the same budget
+            wide = len(getattr(self, "markers", ())) > 16
+            cap = max(cap, (90 if wide else 30) if ctx.tier == "quick" else (200 if wide else 60))
+            ctx.shape("outermost-call-decided")
         if not cap:
             return
         if kind == "only":
@@ -153,9 +159,11 @@ def _run_tree(ctx):
     def run_tree(tree):
         ctx.cases += 1
         ctx.current_case = {"kind": "mtree", "tree": tree}
+        before = ctx.timeouts
         MM.eval_marker_tree(ctx, tree, on_node, prop=PROP, watchdog=5.0 if ctx.tier == "quick" else 20.0)
-        # all subsets of the mentioned variables of the tree value (when <= 4)
-        if tree[0] in ("and", "or") and ctx.rnd.random() < 0.3:
+        # all subsets of the mentioned variables of the tree value (when <= 4); not for a tree that just hit the
+        # watchdog - every derived case would hit it again
+        if tree[0] in ("and", "or") and ctx.rnd.random() < 0.3 and ctx.timeouts == before:
             names = mentioned(tree)
             if 1 <= len(names) <= 4:
                 for k in range(1, len(names) + 1):
